@@ -24,7 +24,13 @@ mkdir -p /verif/seeded/$id
 cp $sd/patch.diff /verif/seeded/$id/patch.diff
 cp $wt/$demo /verif/seeded/$id/ 2>/dev/null
 for f in $sd/*; do case "$f" in *.sqlite|*.sqlite-journal|*.py|*meta.json) cp "$f" /verif/seeded/$id/;; esac; done
-cd /repo && git apply /verif/seeded/$id/patch.diff || { echo "PATCH DOES NOT APPLY TO /repo"; exit 1; }
-cd /verif && timeout 1500 bin/vcheck run $prop -j 16 2>&1 | grep -E "^VIOLATION|^INCONCLUSIVE|^KNOWN|exit=" | cut -c1-220 | head -6
-git -C /repo checkout -- .
-git -C /repo status --short | head -3
+# SEED_REPO / SEED_VERIF: run against a scratch checkout of /repo and a scratch
+# copy of /verif (evidence and replays of the seeded tree then land in the copy)
+R=${SEED_REPO:-/repo}; V=${SEED_VERIF:-/verif}
+cd $R && git apply /verif/seeded/$id/patch.diff || { echo "PATCH DOES NOT APPLY TO $R"; exit 1; }
+cd $V && timeout 1500 /verif/bin/vcheck run $prop --repo $R --verif $V -j ${SEED_J:-16} 2>&1 | grep -E "^VIOLATION|^INCONCLUSIVE|^KNOWN|exit=" | cut -c1-220 | head -6
+git -C $R checkout -- .
+git -C $R status --short | head -3
+# the run above rewrote evidence/<prop>.json with the seeded tree's result: put
+# the committed evidence (unchanged tree) back
+[ "$V" = /verif ] && git -C /verif checkout -- evidence/$prop.json 2>/dev/null
